@@ -468,7 +468,11 @@ class Layouts:
             return Prim(c, "bytes") if isinstance(c, int) else Dyn("Bytes", (str(c),), call, env)
         if n == "Const":
             if len(A) == 2:
-                return Wrap("Const", ev(1), self.const(A[0], env))
+                sub = ev(1)
+                v = self.const(A[0], env)
+                if isinstance(sub, Prim) and sub.kind == "bytes" and isinstance(v, bytes) and sub.size == len(v):
+                    return Prim(len(v), "const", extra=v)  # Const(v, Bytes(len(v))) is Const(v)
+                return Wrap("Const", sub, v)
             v = self.const(A[0], env)
             return Prim(len(v), "const", extra=v)
         if n == "PaddedString":
